@@ -33,7 +33,26 @@ def observe_referents(w: progs.World, problems: List[str], records: List[dict]):
         ctxs = ll.contexts_active_in_frame(w.frame, w.target)
     got = [(ids.get(id(c.obj), None if c.obj is None else "?"), c.is_async, c.is_exiting) for c in ctxs]
     records.append({"lasti": w.frame.f_lasti, "got": got})
-    is_async = lambda mid: type(w.mgrs[mid]).__name__ == "AMgr"
+    judge_referents(w, got, truth, entering, problems, "")
+    if [x for x in caught if "trickery" in str(x.message).lower()]:
+        problems.append("a warning was issued although trickery is disabled")
+    # the same through extract(): the frame that the program's frame is calling is then known, and the exiting entry's obj is
+    # inferred from it
+    import stackscope
+
+    with warnings.catch_warnings(record=True), contextlib.redirect_stderr(io.StringIO()):
+        warnings.simplefilter("always")
+        st = stackscope.extract(w.target)
+    fr = [f for f in st.frames if f.pyframe is w.frame]
+    if st.error is not None or not fr:
+        problems.append(f"f_lasti={w.frame.f_lasti}: extract() in referents mode: error {st.error!r}, program frame present: {bool(fr)}")
+    else:
+        got2 = [(ids.get(id(c.obj), None if c.obj is None else "?"), c.is_async, c.is_exiting) for c in fr[0].contexts]
+        judge_referents(w, got2, truth, entering, problems, "via extract(): ")
+
+
+def judge_referents(w, got, truth, entering, problems, label):
+    is_async = lambda mid: type(w.mgrs[mid]).__name__.endswith("AMgr")
     active = [(mid, is_async(mid)) for mid, ex in truth if not ex]
     exiting = [mid for mid, ex in truth if ex]
     # ordered sub-list
@@ -43,19 +62,17 @@ def observe_referents(w: progs.World, problems: List[str], records: List[dict]):
             if g == a:
                 break
         else:
-            problems.append(f"f_lasti={w.frame.f_lasti}: referents mode lost or reordered active manager {a}: got {got}, active {active}")
+            problems.append(f"{label}f_lasti={w.frame.f_lasti}: referents mode lost or reordered active manager {a}: got {got}, active {active}")
             break
     extras = [g for g in got if not g[2] and (g[0], g[1]) not in active]
     for g in extras:
         if g[0] not in ([entering] + exiting):
-            problems.append(f"f_lasti={w.frame.f_lasti}: extra entry {g} is neither being entered ({entering}) nor exited ({exiting}); got {got}")
+            problems.append(f"{label}f_lasti={w.frame.f_lasti}: extra entry {g} is neither being entered ({entering}) nor exited ({exiting}); got {got}")
     ex_entries = [g for g in got if g[2]]
     if bool(ex_entries) != bool(exiting):
-        problems.append(f"f_lasti={w.frame.f_lasti}: is_exiting entries {ex_entries} but exit in progress: {exiting}")
+        problems.append(f"{label}f_lasti={w.frame.f_lasti}: is_exiting entries {ex_entries} but exit in progress: {exiting}")
     if ex_entries and (got[-1] != ex_entries[0] or len(ex_entries) != 1 or ex_entries[0][1] != is_async(exiting[0])):
-        problems.append(f"f_lasti={w.frame.f_lasti}: the is_exiting entry is not the single last entry with the right is_async: {got}")
-    if [x for x in caught if "trickery" in str(x.message).lower()]:
-        problems.append("a warning was issued although trickery is disabled")
+        problems.append(f"{label}f_lasti={w.frame.f_lasti}: the is_exiting entry is not the single last entry with the right is_async: {got}")
 
 
 class C20(PropCheck):
@@ -86,6 +103,10 @@ class C20(PropCheck):
         for _ in range(n):
             out.append({"k": "referents", "kind": rng.choice(["gen", "coro", "agen"]), "pseed": rng.randrange(1 << 30),
                         "depth": rng.randint(1, dmax), "choices": [rng.randrange(6) for _ in range(rng.randint(0, 14))]})
+        for ci, (kind, _src) in enumerate(progs.CORPUS):
+            if kind != "sync":
+                for ch in ([], [1], [0, 1], [1, 0, 1], [0, 0, 1, 1], [1, 1, 0, 1, 0]):
+                    out.append({"k": "referents", "kind": kind, "corpus": ci, "pseed": 0, "depth": 0, "choices": ch})
         for _ in range(12 if tier == "quick" else 80):
             out.append({"k": "faults", "kind": rng.choice(["gen", "coro"]), "pseed": rng.randrange(1 << 30), "depth": 2,
                         "choices": [rng.randrange(6) for _ in range(8)]})
@@ -104,7 +125,7 @@ class C20(PropCheck):
         if case["k"] == "referents":
             ll.set_trickery_enabled(False)
             try:
-                src = progs.gen_program(random.Random(case["pseed"]), case["kind"], case["depth"])
+                src = progs.CORPUS[case["corpus"]][1] if "corpus" in case else progs.gen_program(random.Random(case["pseed"]), case["kind"], case["depth"])
                 recs: List[dict] = []
                 progs.run_program(src, case["kind"], case["choices"],
                                   lambda w, label: observe_referents(w, self._probs, recs) if label == "suspended" else None)
@@ -187,7 +208,11 @@ class C20(PropCheck):
                         count[0] += 1
                         if count[0] == k:
                             hit[0] = True
-                            raise ZeroDivisionError(f"injected into {h}#{k}")
+                            # every shape of exception: with a message, with a key, and with NO arguments at all (what the
+                            # inspectors' own bare `assert`s and a plain `raise ValueError` produce)
+                            kinds = [lambda: ZeroDivisionError(f"injected into {h}#{k}"), lambda: AssertionError(), lambda: KeyError(k),
+                                     lambda: ValueError(), lambda: IndexError("tuple index out of range"), lambda: RuntimeError()]
+                            raise kinds[(k + len(h) + fired) % len(kinds)]()
                         return orig(*a, **kw)
 
                     setattr(L, h, wrapper)
